@@ -10,6 +10,7 @@ the matching `…_witness` theorems prove the model really departs from the spec
 -/
 import GPy.C07.Proofs
 import GPy.C07.TextProofs
+import GPy.C07.RoundTrip
 import GPy.C07.ShiftProofs
 import GPy.C07.BitProofs
 import GPy.C07.PowProofs
@@ -242,6 +243,29 @@ theorem text_to_int_exact (str : List Char) (base : Nat) :
 here (it needs `strconv.ParseInt`'s range contract); the representation tag is compared
 by the correspondence run instead. -/
 example : (intFromString "  -0x00ff ".toList 0).bind valOf = some (-255) := by decide
+
+/-- Integer → text → integer: for EVERY integer, `int(str(v))`, `int(hex(v), 16)`, `int(oct(v), 8)`,
+`int(bin(v), 2)` and the same texts with base 0 (prefix-inferred) give `v` back – through the MODEL of
+`py.IntFromString` applied to the spec's rendering `renderInt prefix base v` (= `specRender`, which the
+correspondence run shows to be what `str/hex/oct/bin` print). -/
+theorem int_text_roundtrip (v : Int) :
+    (intFromString (renderInt "" 10 v).toList 10).bind valOf = some v ∧
+    (intFromString (renderInt "" 10 v).toList 0).bind valOf = some v ∧
+    (intFromString (renderInt "0x" 16 v).toList 16).bind valOf = some v ∧
+    (intFromString (renderInt "0x" 16 v).toList 0).bind valOf = some v ∧
+    (intFromString (renderInt "0o" 8 v).toList 8).bind valOf = some v ∧
+    (intFromString (renderInt "0o" 8 v).toList 0).bind valOf = some v ∧
+    (intFromString (renderInt "0b" 2 v).toList 2).bind valOf = some v ∧
+    (intFromString (renderInt "0b" 2 v).toList 0).bind valOf = some v := by
+  simp only [text_to_int_exact, renderInt_toList]
+  show _ ∧ _ ∧ _ ∧ _ ∧ _ ∧ _ ∧ _ ∧ _
+  refine ⟨str_int_roundtrip v 10 (.inl rfl), str_int_roundtrip v 0 (.inr rfl),
+    prefixed_int_roundtrip 'x' 16 rfl (by decide) (by decide) (by decide) v 16 (.inl rfl),
+    prefixed_int_roundtrip 'x' 16 rfl (by decide) (by decide) (by decide) v 0 (.inr rfl),
+    prefixed_int_roundtrip 'o' 8 rfl (by decide) (by decide) (by decide) v 8 (.inl rfl),
+    prefixed_int_roundtrip 'o' 8 rfl (by decide) (by decide) (by decide) v 0 (.inr rfl),
+    prefixed_int_roundtrip 'b' 2 rfl (by decide) (by decide) (by decide) v 2 (.inl rfl),
+    prefixed_int_roundtrip 'b' 2 rfl (by decide) (by decide) (by decide) v 0 (.inr rfl)⟩
 
 /-! ### witnesses for the excluded region (known finding C07-K01) -/
 
